@@ -65,6 +65,28 @@ def r_io_chain(model, rep):
 # ---------------------------------------------------------------------------------------------------------
 # C01 specifics
 # ---------------------------------------------------------------------------------------------------------
+def collects_all(cx, S, term, attr):
+    """``term`` denotes the collection { child.<attr> : child in self.variants.values() } of *all* children:
+    a comprehension over self.variants.values() without condition, or a local filled by .add/.append(child.<attr>) in an
+    unconditional loop over self.variants.values()"""
+    vals = ("call", ("attr", ("attr", S, "variants"), "values"), (), ())
+    u = T.unwrap(term)
+    # comprehension / set(<comprehension>)
+    for x in T.walk(u):
+        if x[0] == "comp" and len(x[3]) == 1 and x[3][0][1] == vals and not x[3][0][2] and len(x[3][0][0]) == 2 \
+                and x[2] == ("attr", ("bound", x[3][0][0][1]), attr):
+            return True
+    if term[0] == "local":
+        adds = [ev for ev in cx.events if ev.kind == "call" and ev.value[1][0] == "attr" and ev.value[1][2] in ("add", "append")
+                and ev.value[1][1][0] == "local" and T.same_local(ev.value[1][1], term)]
+        if len(adds) == 1 and adds[0].loops and adds[0].loops[-1][1] == vals and not T.guard_tests(adds[0]):
+            el = ("elem", adds[0].loops[-1][1], adds[0].loops[-1][0])
+            lids = set(l[0] for l in adds[0].loops)
+            cut = [ev for ev in cx.events if ev.kind in ("break", "continue", "return") and set(l[0] for l in ev.loops) & lids]
+            return adds[0].value[2] == (("attr", el, attr),) and not cut
+    return False
+
+
 def r_variant_tree(model, rep):
     # (i) writer: the 'variants' list is exactly the ids of the children that were serialised
     f = model.own_method("composeinfo.Variant", "serialize")
@@ -74,18 +96,12 @@ def r_variant_tree(model, rep):
     ok, msg = len(ve) == 1, "no 'variants' child-id list is emitted"
     if ok:
         v = ve[0].value
-        ok = v[0] == "call" and v[1] == ("global", "sorted") and v[2][0][0] == "local"
+        ok = v[0] == "call" and v[1] == ("global", "sorted") and len(v[2]) == 1 and not v[3] and v[2][0][0] == "local"
         msg = "child ids are not emitted as sorted(<collected ids>)"
         if ok:
             loc = v[2][0]
-            adds = [ev for ev in cx.events if ev.kind == "call" and ev.value[1][0] == "attr" and ev.value[1][2] == "add"
-                    and ev.value[1][1][0] == "local" and T.same_local(ev.value[1][1], loc)]
-            sers = [ev for ev in cx.events if ev.kind == "call" and ev.value[1][0] == "attr" and ev.value[1][2] == "serialize"
-                    and ev.value[1][1][0] == "elem"]
-            ok = len(adds) == 1 and len(sers) == 1 and adds[0].loops == sers[0].loops and not T.guard_tests(adds[0]) \
-                and adds[0].value[2] == (("attr", sers[0].value[1][1], "id"),) \
-                and sers[0].loops[-1][1] == ("call", ("attr", ("attr", S, "variants"), "values"), (), ())
-            msg = "the id list is not collected from exactly the children that are serialised (same loop over self.variants.values(), variant.id)"
+            ok = collects_all(cx, S, loc, "id")
+            msg = "the id list is not collected from all children (every variant.id of self.variants.values())"
             if ok:
                 g = [x for x in facts.non_gate_guards(ve[0].ev)]
                 ok = len(g) == 1 and g[0][1] and g[0][0][0] == "local" and T.same_local(g[0][0], loc)
@@ -207,11 +223,14 @@ def r_paths(model, rep):
     ok, msg = len(st) == 1, "expected exactly one path store"
     if ok:
         e = st[0]
-        ok = len(e.loops) == 2 and e.loops[0][1] == arches and e.loops[1][1] == ("attr", S, "_fields")
+        fields_it = ("attr", S, "_fields")
+        la = [l for l in e.loops if l[1] == arches]
+        lf = [l for l in e.loops if l[1] == fields_it]
+        ok = len(e.loops) == 2 and len(la) == 1 and len(lf) == 1
         msg = "the writer must iterate sorted(variant.arches) x self._fields"
         if ok:
-            arch = ("elem", e.loops[0][1], e.loops[0][0])
-            name = ("elem", e.loops[1][1], e.loops[1][0])
+            arch = ("elem", la[0][1], la[0][0])
+            name = ("elem", lf[0][1], lf[0][0])
             val = ("call", ("attr", ("call", ("global", "getattr"), (S, name), ()), "get"), (arch, ("const", None)), ())
             ok = e.path == [name, arch] and e.value == val and [(g[0], g[1]) for g in e.guards] == [(val, True)]
             msg = "paths must be written as out[category][arch] = getattr(self, category).get(arch), skipping empty values only"
@@ -226,11 +245,13 @@ def r_paths(model, rep):
     if ok:
         e = st[0]
         arches = ("call", ("global", "sorted"), (("attr", ("attr", S, "_variant"), "arches"),), ())
-        ok = len(e.loops) == 2 and e.loops[0][1] == arches and e.loops[1][1] == ("attr", S, "_fields")
+        la = [l for l in e.loops if l[1] == arches]
+        lf = [l for l in e.loops if l[1] == ("attr", S, "_fields")]
+        ok = len(e.loops) == 2 and len(la) == 1 and len(lf) == 1
         msg = "the reader must iterate sorted(variant.arches) x self._fields"
         if ok:
-            arch = ("elem", e.loops[0][1], e.loops[0][0])
-            name = ("elem", e.loops[1][1], e.loops[1][0])
+            arch = ("elem", la[0][1], la[0][0])
+            name = ("elem", lf[0][1], lf[0][0])
             val = ("call", ("attr", ("call", ("attr", IN, "get"), (name, ("dict", ())), ()), "get"), (arch, ("const", None)), ())
             ok = e.target == ("sub", ("call", ("global", "getattr"), (S, name), ()), arch) and e.value == val \
                 and [(g[0], g[1]) for g in e.guards] == [(val, True)]
@@ -276,15 +297,25 @@ def r_cells(model, rep):
     ok, msg = len(n) == 1, "no per-image serialize() call"
     if ok:
         e = n[0]
-        ok = len(e.loops) == 3
+        ok = len(e.loops) == 3 and len(e.path) == 4
         msg = "images must be written by three nested loops (variant, arch, image)"
         if ok:
             im = ("attr", S, "images")
-            v = ("elem", im, e.loops[0][0])
-            a = ("elem", ("sub", im, v), e.loops[1][0])
-            i = ("elem", ("sub", ("sub", im, v), a), e.loops[2][0])
-            ok = [l[1] for l in e.loops] == [im, ("sub", im, v), ("sub", ("sub", im, v), a)] \
-                and e.path == [("const", "payload"), ("const", "images"), v, a] and e.value[1] == ("attr", i, "serialize") \
+            vkey, akey = T.norm_items(e.path[2]), T.norm_items(e.path[3])
+            its = [T.norm_items(l[1]) for l in e.loops]
+
+            def draws_key(key, container):
+                if key[0] == "elem" and T.norm_items(key[1]) == container:
+                    return True
+                if key[0] == "idx" and key[2] == 0 and key[1][0] == "elem":
+                    src = key[1][1]
+                    return (src[0] == "call" and src[1][0] == "attr" and src[1][2] in ("items", "iteritems") and T.norm_items(src[1][1]) == container) \
+                        or (src[0] == "call" and src[1] == ("global", "six.iteritems") and T.norm_items(src[2][0]) == container)
+                return False
+            cell = ("sub", ("sub", im, vkey), akey)
+            recv = e.value[1][1]
+            ok = e.path[:2] == [("const", "payload"), ("const", "images")] and draws_key(vkey, im) and draws_key(akey, ("sub", im, vkey)) \
+                and its[2] == cell and recv == ("elem", e.loops[2][1], e.loops[2][0]) and e.value[1][2] == "serialize" \
                 and not T.guard_tests(e.ev)
             msg = "every image of self.images[variant][arch] must be serialised into payload/images/<same variant>/<same arch>"
     rep.ob("R-CELLS", "Images.serialize:cells", ok, site=cx.site(f.node), msg="" if ok else msg)
@@ -678,13 +709,7 @@ def r_ti_variant_tree(model, rep):
             and v[2][0][2][0][0] == "local"
         if ok:
             loc = v[2][0][2][0]
-            adds = [ev for ev in cx.events if ev.kind == "call" and ev.value[1][0] == "attr" and ev.value[1][2] == "add"
-                    and ev.value[1][1][0] == "local" and T.same_local(ev.value[1][1], loc)]
-            sers = [ev for ev in cx.events if ev.kind == "call" and ev.value[1][0] == "attr" and ev.value[1][2] == "serialize"
-                    and ev.value[1][1][0] == "elem"]
-            ok = len(adds) == 1 and len(sers) == 1 and adds[0].loops == sers[0].loops and not T.guard_tests(adds[0]) \
-                and adds[0].value[2] == (("attr", sers[0].value[1][1], "uid"),) \
-                and sers[0].loops[-1][1] == ("call", ("attr", ("attr", S, "variants"), "values"), (), ())
+            ok = collects_all(cx, S, loc, "uid")
     rep.ob("R-TI-VARIANT-TREE", "treeinfo.Variant.serialize:addons", ok, site=cx.site(f.node),
            msg="" if ok else "'addons' must be the sorted comma list of the uid of exactly the children that are serialised")
     g = model.own_method("treeinfo.Variant", "deserialize_1_0")
@@ -814,23 +839,39 @@ def r_discinfo_pos(model, rep):
     f = model.own_method("discinfo.DiscInfo", "serialize")
     cx, emits = facts.writer_emits(model, f)
     S = P(cx.selfname)
-    app = [e for e in emits if e.kind == "append"]
-    order = []
+    app = sorted([e for e in emits if e.kind == "append"], key=lambda e: e.ev.seq)
+    # group appends into line positions: two appends in complementary branches of one test fill the same line
+    positions = []
     for e in app:
-        a = cx.self_attrs_in(e.value) or cx.self_attrs_in(e.guards[-1][0] if e.guards else ("const", None))
-        order.append(a[0] if a else "?")
-    ok = order == ["timestamp", "description", "arch", "disc_numbers", "disc_numbers"]
-    rep.ob("R-DISCINFO-POS", "DiscInfo.serialize:line-order", ok, site=cx.site(f.node),
-           msg="" if ok else "lines must be written in the order timestamp, description, arch, disc numbers: %s" % order)
+        if positions:
+            prev = positions[-1][-1]
+            if len(prev.guards) == len(e.guards) and prev.guards and prev.guards[:-1] == e.guards[:-1] \
+                    and prev.guards[-1][0] == e.guards[-1][0] and prev.guards[-1][1] != e.guards[-1][1]:
+                positions[-1].append(e)
+                continue
+        positions.append([e])
+
+    def alts(es):
+        out = []
+        for e in es:
+            v = e.value
+            out.extend(list(v[1]) if v[0] == "phi" else [v])
+        return out
+    shapes = [sorted(T.show(T.unwrap(a)) for a in alts(p_)) for p_ in positions]
+    want = [["str(self.timestamp).strip()"], ["self.description.strip()"], ["self.arch.strip()"],
+            sorted(["'ALL'", "','.join(list<str(i) for i in self.disc_numbers>)"])]
+    ok = shapes == want and all(not e.guards for p_ in positions[:3] for e in p_)
+    rep.ob("R-DISCINFO-POS", "DiscInfo.serialize:lines", ok, site=cx.site(f.node),
+           msg="" if ok else "lines must be, in this order: str(timestamp).strip(), description.strip(), arch.strip(), then 'ALL' or the "
+                             "comma-joined disc numbers: %s" % shapes)
     if ok:
-        shapes = [T.show(e.value) for e in app]
-        want = ["str(self.timestamp).strip()", "self.description.strip()", "self.arch.strip()", "'ALL'",
-                "','.join(list<str(i) for i in self.disc_numbers>)"]
-        ok2 = shapes == want and not app[0].guards and not app[1].guards and not app[2].guards \
-            and app[3].guards[-1] == (("cmp", ("==",), (("attr", S, "disc_numbers"), ("list", (("const", "ALL"),)))), True) \
-            and app[4].guards[-1] == (("cmp", ("==",), (("attr", S, "disc_numbers"), ("list", (("const", "ALL"),)))), False)
-        rep.ob("R-DISCINFO-POS", "DiscInfo.serialize:line-values", ok2, site=cx.site(f.node),
-               msg="" if ok2 else "line contents changed: %s" % shapes)
+        isall = ("cmp", ("==",), (("attr", S, "disc_numbers"), ("list", (("const", "ALL"),))))
+        src_all = [ev for ev in cx.events if ev.kind in ("bind", "call") and (
+            (ev.kind == "bind" and ev.value == ("const", "ALL")) or
+            (ev.kind == "call" and ev.value[1][0] == "attr" and ev.value[1][2] == "append" and ev.value[2] == (("const", "ALL"),)))]
+        ok2 = bool(src_all) and all(facts.canon_guards(ev.guards) == frozenset([facts.canon_guard((isall, True))]) for ev in src_all)
+        rep.ob("R-DISCINFO-POS", "DiscInfo.serialize:ALL-sentinel", ok2, site=cx.site(f.node),
+               msg="" if ok2 else "'ALL' must be written exactly when disc_numbers == ['ALL']")
     g = model.own_method("discinfo.DiscInfo", "deserialize")
     reads = facts.reader_reads(model, g)
     gcx = facts.fctx(model, g)
